@@ -24,6 +24,7 @@ Fixpoint nthsN (l : list bytes) (is_ : list N) : res (list bytes) :=
   | [] => Ok []
   | i :: r => do x <- nthN l i; do xs <- nthsN l r; Ok (x :: xs)
   end.
+Definition res_class {A} (r : res A) : N := match r with Ok _ => 0 | Err _ => 1 | Panic => 2 end.
 Fixpoint roots_ok (t : aht) (digs : list bytes) (n : N) (roots : list N) : bool :=
   match roots with
   | [] => true
@@ -39,6 +40,9 @@ Inductive case :=
    into `digests` *)
 | CAhtModel (ops : list aop) (digests : list bytes) (roots : list N)
             (iproofs cproofs : list (N * N * list N))
+            (* (i, j, outcome class of InclusionProof(i,j), of ConsistencyProof(i,j)):
+               0 = a proof, 1 = an error, 2 = a Go panic — for out-of-range arguments *)
+            (edges : list (N * N * N * N))
 (* (n, nodesUpto n, nodesUntil n, levelsAt n) *)
 | CAhtArith (rows : list (N * N * N * N))
 (* AHtree.InclusionProof(i,j) on a tree holding `payloads` *)
@@ -56,13 +60,15 @@ Definition case_ok (c : case) : bool :=
   match c with
   | CSha i o => bytes_eqb (Hs i) o
   | CAht p roots => lbytes_eqb (prefixes_roots (length p) p 1) roots
-  | CAhtModel ops digs roots ips cps =>
+  | CAhtModel ops digs roots ips cps edges =>
       let t := aht_run Hs ops in
       (dsize t =? lenN digs) && (lenN roots =? size t) &&
       lbytes_eqb (firstn (N.to_nat (dsize t)) (dlog t)) digs &&
       roots_ok t digs 1 roots &&
       forallb (fun '(i, j, ix) => res_eqb lbytes_eqb (inclusion_proof t i j) (nthsN digs ix)) ips &&
-      forallb (fun '(i, j, ix) => res_eqb lbytes_eqb (consistency_proof t i j) (nthsN digs ix)) cps
+      forallb (fun '(i, j, ix) => res_eqb lbytes_eqb (consistency_proof t i j) (nthsN digs ix)) cps &&
+      forallb (fun '(i, j, ci, cc) => (res_class (inclusion_proof t i j) =? ci) &&
+                                      (res_class (consistency_proof t i j) =? cc)) edges
   | CAhtArith rows =>
       forallb (fun '(n, up, un, lv) =>
                  (nodes_upto n =? up) && (nodes_until n =? un) && (levels_at n =? lv)) rows
